@@ -603,7 +603,7 @@ theorem C08_mutator_calls_safe : MutatorCallsSafe mutatorNames mutatorCalls := b
 theorem C08_alias_accessors_reviewed : AliasAccessorsReviewed aliasAccessors := by decide
 
 example : ¬ AliasAccessorsReviewed (("Array.Elements", "elements") :: aliasAccessors) := by decide
-example : ¬ MutatorCallsSafe mutatorNames (("serialization", "context.toData", "Put") :: mutatorCalls) := by decide
+example : ¬ MutatorCallsSafe mutatorNames (("serialization/serializer.go", "Put") :: mutatorCalls) := by decide
 example : ¬ MutatorCallsSafe (mutatorNames.filter (· != "PutAll")) mutatorCalls := by decide
 
 /-- the table of seeded change C08-s11 -/
